@@ -546,7 +546,7 @@ theorem takeWhile_run {α} (p : α → Bool) (l₁ : List α) (x : α) (l₂ : L
     (h1 : ∀ c ∈ l₁, p c = true) (hx : p x = false) :
     (l₁ ++ x :: l₂).takeWhile p = l₁ ∧ (l₁ ++ x :: l₂).dropWhile p = x :: l₂ := by
   induction l₁ with
-  | nil => simp [List.takeWhile, List.dropWhile, hx]
+  | nil => simp [hx]
   | cons a as ih =>
     have ha := h1 a (List.mem_cons_self ..)
     obtain ⟨i1, i2⟩ := ih (fun c hc => h1 c (List.mem_cons_of_mem _ hc))
